@@ -477,6 +477,8 @@ def correspond(ctx, xh, xm, xd, codes, jobs, thorough, proof_broken, failed, out
     judge(ctx, cases, cfgs, for_c03)
     nreq += doctype_stream(ctx, xh, jobs, 150 if not thorough else 5000)
     nreq += name_stream(ctx, xh, xd, jobs)
+    nreq += decl11_stream(ctx, xh, jobs)
+    nreq += entity_split_stream(ctx, xh, xm, jobs)
     ctx.coverage["traces_validated_against_impl"] = nreq
     if proof_broken and not ctx.violations:
         ctx.violation("obligation", {"what": "Coq obligation no longer checks and no failing input was found by the "
@@ -494,6 +496,155 @@ def replay_expect(ctx, xh, r):
     if fatal != ex["fatal"] or (not fatal and ex.get("events") is not None and ev != ex["events"]):
         ctx.violation(r.get("tag", "divergence"), {"what": r.get("what", "replayed case still fails"),
                                                    "request": r["request"], "impl": [ev, errs, fh], "expect": ex})
+
+
+def entity_split_stream(ctx, xh, xm, jobs):
+    """markup and quote pairs split across (different, nested) internal general entities - both directions: documents
+    that are ill-formed because an element / a tag / a comment starts in one entity and ends in another must be fatal,
+    documents that are well-formed although a quote character or complete markup comes from a referenced entity must be
+    accepted with the expanded content.  Oracle: the extracted entity layer of the model (Model02e.escan_doc: every
+    replacement text scanned as `content` on its own), IG and DG scanners, namespaces on and off, four APIs."""
+    rng = ctx.rng
+    n = 150 if ctx.tier == "quick" else 6000
+    docs = [GD.gen_split(rng) for _ in range(n)]
+    h4 = lambda t: "".join("%04X" % ord(ch) for ch in t) or ""
+    mreq = ["escan 0 %s %s" % (";".join("%s:%s" % (h4(nm_), h4(v)) for nm_, v in ents) or "-", h4(body))
+            for doc, ents, body in docs]
+    mo = run_lines(xm, mreq, jobs)
+    lines, meta = [], []
+    for k, (doc, ents, body) in enumerate(docs):
+        for sc in ("IG", "DG"):
+            for ns in (0, 1):
+                for a in APIS:
+                    lines.append("parse %s %s %d %s" % (a, sc, ns, bhex(doc.encode("utf-8"))))
+                    meta.append((k, a, sc, ns))
+    out = run_lines(xh, lines, jobs)
+    dist = ctx.coverage.setdefault("input_distribution", {})
+    nbad = 0
+    for (k, a, sc, ns), req, o in zip(meta, lines, out):
+        ctx.count()
+        mev, moc = mo[k].rsplit(" | ", 1)
+        if moc in ("unsupported", "fuel"):
+            continue
+        kind = "entity-split/" + ("ok" if moc == "ok" else "fatal")
+        dist[kind] = dist.get(kind, 0) + 1
+        ctx.distinct(("entsplit", docs[k][0], sc, ns))
+        ev, errs, fh = parse_impl(o)
+        fatal = fatal_count(errs) > 0
+        if fatal != (moc != "ok") or (not fatal and ev != mev):
+            nbad += 1
+            if nbad <= 4:
+                ctx.violation("entity-split", {
+                    "what": "%s/%s namespaces=%d %s (XML 1.0 4.3.2: the replacement text of every entity must match `content` "
+                            "on its own; model verdict %s)" % (
+                                a, sc, ns, "accepts a document in which markup is split across entities" if not fatal and moc != "ok"
+                                else ("rejects a well-formed document with entities" if fatal else
+                                      "delivers content different from the expanded document"), moc),
+                    "request": req, "impl": [ev, errs, fh], "model": [mev, moc], "tag": "entity-split",
+                    "expect": {"fatal": moc != "ok", "events": mev if moc == "ok" else None}, "document": docs[k][0]})
+    ctx.coverage["entity_split_stream"] = {"documents": len(docs), "parser_runs": len(lines)}
+    return len(lines)
+
+
+def decl11_stream(ctx, xh, jobs):
+    """XML 1.1 section 2.11: U+0085 and U+2028 inside the XML declaration (document entity) or text declaration
+    (external parsed entity) are a fatal error.  Only visible in encodings whose first line is not pre-decoded as
+    ASCII: UTF-16 LE/BE, UCS-4 LE/BE and EBCDIC (where NEL is the native line end).  Every position: between the
+    pseudo-attributes, around '=', before '?>', with and without ordinary blanks next to it.  Counterparts without the
+    offending character - and with NEL / LSEP in the content instead - must be accepted."""
+    rng = ctx.rng
+    encs = [("utf-16", "UTF-16", True), ("utf-16-be", "UTF-16", True), ("utf-16-le", "UTF-16", False),
+            ("utf-32", "UTF-32", True), ("utf-32-be", "UCS-4", False), ("cp037", "IBM037", False)]
+
+    def enc_bytes(text, codec):
+        if codec == "utf-16-be":
+            return b"\xfe\xff" + text.encode("utf-16-be")
+        return text.encode(codec)
+    cases = []
+    n = 90 if ctx.tier == "quick" else 3000
+    for k in range(n):
+        codec, name, _ = encs[k % len(encs)]
+        bad = rng.choice(["\x85", "\u2028"]) if codec != "cp037" else "\x85"
+        pseudo = ['version="1.1"']
+        if codec == "cp037" or rng.random() < 0.7:
+            pseudo.append('encoding="%s"' % name)
+        if rng.random() < 0.4:
+            pseudo.append('standalone="%s"' % rng.choice(["yes", "no"]))
+        # slots: after each pseudo-attribute (the last one is the slot before "?>"), or around an '='
+        slot = rng.randrange(len(pseudo))
+        around_eq = rng.random() < 0.2
+        form = rng.choice(["only", "before-blank", "after-blank", "both"])
+        offending = k % 3 != 0
+
+        def sep(j, last):
+            base = "" if last else " "
+            if not offending or around_eq or j != slot:
+                return base if not last else rng.choice(["", " "])
+            return {"only": bad, "before-blank": bad + " ", "after-blank": " " + bad, "both": " " + bad + " "}[form]
+        decl = "<?xml "
+        for j, pa in enumerate(pseudo):
+            if offending and around_eq and j == slot:
+                pa = pa.replace("=", rng.choice([bad + "=", "=" + bad]))
+            decl += pa + sep(j, j == len(pseudo) - 1)
+        decl += "?>"
+        where = "doc" if rng.random() < 0.75 else "ent"
+        if where == "doc":
+            content = "<a>t" + (rng.choice(["\x85", "\u2028", "\r\x85"]) if not offending and codec != "cp037" else "") + "u</a>"
+            doc = enc_bytes(decl + content, codec)
+            res = {}
+            exp = None
+            if not offending:
+                exp = "S0061 T0074" + ("000A" if len(content) > 9 else "") + "0075 E0061"
+        else:
+            if "standalone" in decl:
+                decl = decl.replace(' standalone="yes"', "").replace(' standalone="no"', "")
+            if "encoding" not in decl:
+                decl = decl.replace("?>", ' encoding="%s"?>' % name) if not offending else decl
+            main = '<?xml version="1.1"?><!DOCTYPE a [<!ENTITY x SYSTEM "e.ent">]><a>&x;</a>'
+            doc = main.encode("utf-8")
+            res = {"e.ent": enc_bytes(decl + "tu", codec)}
+            exp = "S0061 T00740075 E0061" if not offending else None
+            if "encoding" not in decl:
+                continue          # a text declaration must carry an encoding declaration: not this stream's subject
+        cases.append({"doc": doc, "res": res, "offending": offending, "exp": exp, "codec": codec, "where": where,
+                      "bad": bad if offending else None, "decl": decl})
+    lines, meta = [], []
+    for k, c in enumerate(cases):
+        rt = "".join(" %s=%s" % (nm_, bhex(v)) for nm_, v in c["res"].items())
+        for sc in (SCANNERS if c["where"] == "doc" else ["IG", "DG"]):
+            for a in APIS:
+                lines.append("parse %s %s %d %s -%s" % (a, sc, k % 2, bhex(c["doc"]), rt))
+                meta.append((k, a, sc))
+    out = run_lines(xh, lines, jobs)
+    dist = ctx.coverage.setdefault("input_distribution", {})
+    nbad = 0
+    for (k, a, sc), req, o in zip(meta, lines, out):
+        ctx.count()
+        c = cases[k]
+        kind = "decl11/%s/%s/%s" % (c["codec"], c["where"], "offending" if c["offending"] else "clean")
+        dist[kind] = dist.get(kind, 0) + 1
+        ctx.distinct(("decl11", c["doc"], tuple(c["res"].items()), sc))
+        ev, errs, fh = parse_impl(o)
+        fatal = fatal_count(errs) > 0
+        if c["offending"] and not fatal:
+            if c["bad"] == "\u2028" and ctx.find_known("F46"):
+                ctx.known_finding("F46", "U+2028 inside an XML 1.1 declaration / text declaration is accepted (U+0085 is rejected)")
+                continue
+            nbad += 1
+            if nbad <= 4:
+                ctx.violation("decl11", {
+                    "what": "%s/%s accepts U+%04X inside the XML 1.1 %s declaration of a %s document (XML 1.1 2.11: fatal error): %r"
+                            % (a, sc, ord(c["bad"]), "XML" if c["where"] == "doc" else "text", c["codec"], c["decl"]),
+                    "request": req, "impl": [ev, errs, fh], "expect": {"fatal": True}, "tag": "decl11"})
+        elif not c["offending"] and (fatal or ev != c["exp"]):
+            nbad += 1
+            if nbad <= 4:
+                ctx.violation("decl11", {
+                    "what": "%s/%s: a well-formed XML 1.1 document in %s (%r) is %s" % (
+                        a, sc, c["codec"], c["decl"], "rejected" if fatal else "reported with different content"),
+                    "request": req, "impl": [ev, errs, fh], "expect": {"fatal": False, "events": c["exp"]}, "tag": "decl11"})
+    ctx.coverage["decl11_stream"] = {"documents": len(cases), "parser_runs": len(lines)}
+    return len(lines)
 
 
 def name_stream(ctx, xh, xd, jobs):
@@ -663,7 +814,10 @@ def doctype_stream(ctx, xh, jobs, ndocs):
             name, s, mres = muts[i[1]]
             dist["doctype-mutant/" + name] = dist.get("doctype-mutant/" + name, 0) + 1
             ctx.distinct(("dtd-mutant", s))
-            if not fatal or fh == 0:
+            if (not fatal or fh == 0) and name.startswith("dtd-charref-overflow") and ctx.find_known("F45"):
+                ctx.known_finding("F45", "a numeric character reference >= 2^32 inside a DTD literal wraps around and is "
+                                  "accepted (DTDScanner::scanCharRef has no overflow guard)")
+            elif not fatal or fh == 0:
                 nv["doctype-mutant"] += 1
                 if nv["doctype-mutant"] <= 2:
                     ctx.violation("doctype-mutant", {
@@ -696,12 +850,15 @@ def doctype_stream(ctx, xh, jobs, ndocs):
     return len(lines)
 
 
-WITNESS_RULE = {   # finding -> predicate on (errors, fh) of a witness run saying that the defect shows
-    "F2": lambda errs, fh: fatal_count(errs) == 0,
-    "F41": lambda errs, fh: fatal_count(errs) == 0,
-    "F42": lambda errs, fh: fatal_count(errs) == 0,
-    "F40": lambda errs, fh: "EXC:DOMException:5" in errs,
-    "F43": lambda errs, fh: "EXC:DOMException:9" in errs or fatal_count(errs) == 0,
+WITNESS_RULE = {   # finding -> predicate on (request, errors, fh) of a witness run saying that the defect shows
+    "F2": lambda req, errs, fh: fatal_count(errs) == 0,
+    "F41": lambda req, errs, fh: fatal_count(errs) == 0,
+    "F42": lambda req, errs, fh: fatal_count(errs) == 0,
+    "F45": lambda req, errs, fh: fatal_count(errs) == 0,
+    "F46": lambda req, errs, fh: fatal_count(errs) == 0 and not req.endswith(" l"),
+    "F40": lambda req, errs, fh: "EXC:DOMException:5" in errs,
+    # first witness: DOM builders throw for version 1.5; second: a version string that is no VersionNum is accepted
+    "F43": lambda req, errs, fh: ("EXC:DOMException:9" in errs) if req.split()[1] in ("dom", "ls") else fatal_count(errs) == 0,
 }
 
 
@@ -715,7 +872,7 @@ def replay_witnesses(ctx, xh, prop_rules=None):
             continue
         outs = run_lines(xh, wit)
         ctx.count(len(wit))
-        shows = [w for w, o in zip(wit, outs) if rules[fid](parse_impl(o)[1], parse_impl(o)[2])]
+        shows = [w for w, o in zip(wit, outs) if rules[fid](w, parse_impl(o)[1], parse_impl(o)[2])]
         if shows:
             ctx.known_finding(fid, f["what"][:300] + " (witness `%s`)" % shows[0][:120])
         else:
@@ -772,7 +929,7 @@ def judge(ctx, cases, cfgs, for_c03):
                                 "case_kind": c.kind, "op": c.op})
                         continue
                     # model correspondence: first fatal code (WF and IG scanners follow the modelled code)
-                    if (s == "WF" or (s == "IG" and ns == 0)) and moc.startswith("F") and c.tag != "enc-switched":
+                    if (s == "WF" or (s == "IG" and ns == 0)) and moc.startswith("F") and c.tag not in ("enc-switched", "code-free"):
                         ff = first_fatal(ierrs)
                         if ff == "E62":
                             # XMLReader's own pre-decoding of the XML declaration line (Reader_CouldNotDecodeFirstLine)
